@@ -1,5 +1,105 @@
-import Pithos.Model.S3
+/-
+C11 — metadata, tags and storage class follow S3 write semantics (storage API level; the HTTP
+header parsing is exercised by the tie of C38/C31 and the s3h harness works below it).
+In the model `md` holds the system metadata (reserved keys "!cc" "!cd" "!ce" "!cl" "!ex" "!wr")
+together with the user metadata.
+-/
+import Pithos.Lemmas.S3Current
+import Pithos.Props.C14
+
 namespace Pithos.C11
 open Pithos.S3
-theorem placeholder_run_nil (q : Quirks) (s : State) : (run q s []).2 = [] := rfl
+
+/-- **put_replaces_all.** After an acknowledged PutObject the object's content type, system and
+user metadata, tags and storage class are exactly the supplied ones (absent ⇒ cleared), whatever the
+key held before. Every reachable state, every quirk setting. -/
+theorem put_replaces_all (q : Quirks) (s s1 : State) (hinv : Inv s) (b k : String) (body : Bytes) (o : WriteOpts)
+    (inm : Bool) (im : IfMatch) (vid : Option Nat) (e : ETag)
+    (hack : step q s (.put b k body o inm im) = (s1, .wrote vid e)) :
+    ∃ v, (step q s1 (.head b k none)).2 = .obj v ∧ v.ct = o.ct ∧ v.md = o.md ∧ v.tags = o.tags ∧ v.cls = o.cls := by
+  obtain ⟨bk, hfb, hp⟩ := C01.put_ack hack
+  obtain ⟨bk', row, hfb', hl, _, hdm, _, _, hct, hmd, htags, hcls, _, _⟩ := putRow_current (h := inv_tick hinv) hfb hp
+  obtain ⟨_, hh⟩ := get_current (q := q) hfb' hl hdm
+  exact ⟨viewOf row, hh, by simp [viewOf, hct], by simp [viewOf, hmd], by simp [viewOf, htags], by simp [viewOf, hcls]⟩
+
+/-- what CopyObject writes, given the source view and the request -/
+def copyOpts (src : Row) (replaceMeta replaceTags : Bool) (o : WriteOpts) : WriteOpts :=
+  { ct := if replaceMeta then o.ct else src.ct
+    md := if replaceMeta then o.md else
+      sortBy (fun a b => a.1 < b.1) ((src.md.filter fun p => p.1 != "!wr") ++ (o.md.filter fun p => p.1 == "!wr"))
+    tags := if replaceTags then o.tags else src.tags
+    cls := o.cls }
+
+/-- **copy_directives.** After an acknowledged CopyObject the destination carries: content type and
+metadata of the request under REPLACE, else those of the source — except the website redirect
+location ("!wr"), which is never copied and comes only from the request; tags of the request under
+the tagging directive REPLACE, else the source's; and the storage class of the request only. The
+content and ETag are the source's. -/
+theorem copy_directives (q : Quirks) (s s1 : State) (hinv : Inv s) (sb sk db dk : String) (svid : Option (Option Nat))
+    (rm rt : Bool) (o : WriteOpts) (vid : Option Nat) (e : ETag)
+    (hack : step q s (.copy sb sk svid db dk rm rt o) = (s1, .wrote vid e)) :
+    ∃ sbk src v, findBucket s sb = some sbk ∧ resolve sbk sk svid = .ok src ∧
+      (step q s1 (.head db dk none)).2 = .obj v ∧
+      v.ct = (copyOpts src rm rt o).ct ∧ v.md = (copyOpts src rm rt o).md ∧
+      v.tags = (copyOpts src rm rt o).tags ∧ v.cls = o.cls ∧ v.etag = src.etag ∧ v.size = src.size := by
+  have hfbt : ∀ x, findBucket { s with clock := s.clock + 1 } x = findBucket s x := fun _ => rfl
+  simp only [step, stepT, hfbt] at hack
+  cases hsb : findBucket s sb with
+  | none => simp [hsb] at hack
+  | some sbk =>
+    simp only [hsb] at hack
+    cases hres : resolve sbk sk svid with
+    | error err => simp [hres] at hack
+    | ok src =>
+      simp only [hres] at hack
+      cases hdb : findBucket s db with
+      | none => simp [hdb] at hack
+      | some dbk =>
+        simp only [hdb] at hack
+        generalize hn : ({ parts := src.parts, etag := src.etag, o := _ } : NewObj) = n at hack
+        cases hp : putRow q { s with clock := s.clock + 1 } dbk dk n false IfMatch.none with
+        | error err => simp [hp] at hack
+        | ok x =>
+          obtain ⟨s', v'⟩ := x
+          simp only [hp, Prod.mk.injEq, Out.wrote.injEq] at hack
+          obtain ⟨hs, _, _⟩ := hack
+          subst hs
+          obtain ⟨bk', row, hfb', hl, _, hdm, hparts, hetag, hct, hmd, htags, hcls, _, _⟩ :=
+            putRow_current (h := inv_tick hinv) (hdb : findBucket { s with clock := s.clock + 1 } db = some dbk) hp
+          obtain ⟨_, hh⟩ := get_current (q := q) hfb' hl hdm
+          subst hn
+          refine ⟨sbk, src, viewOf row, rfl, hres, hh, ?_, ?_, ?_, ?_, ?_, ?_⟩
+          · simp [viewOf, hct, copyOpts]
+          · simp [viewOf, hmd, copyOpts]
+          · simp [viewOf, htags, copyOpts]
+          · simp [viewOf, hcls]
+          · simp [viewOf, hetag]
+          · simp [viewOf, Row.size, Row.content, hparts]
+
+/-- Storage-class transitions preserve them (C14). -/
+theorem transition_preserves_metadata (q : Quirks) (s s1 : State) (hinv : Inv s) (b k cls : String)
+    (hack : step q s (.transition b k cls none) = (s1, .unit)) :
+    ∃ v0 v1, (step q s (.get b k none)).2 = .obj v0 ∧ (step q s1 (.get b k none)).2 = .obj v1 ∧
+      v1.ct = v0.ct ∧ v1.md = v0.md ∧ v1.tags = v0.tags := by
+  obtain ⟨v0, v1, h0, h1, _, _, _, _, hct, hmd, htags, _⟩ := C14.transition_preserves q s s1 hinv b k cls hack
+  exact ⟨v0, v1, h0, h1, hct, hmd, htags⟩
+
+/-- **Negation witness for the code before /repo 8a5dc41** (`appendEnabledDropsMeta`): an append in
+a versioning-enabled bucket wrote the new version without the object's metadata, tags and class;
+since the fix (`Quirks.code`) they are preserved. -/
+theorem before_fix_append_drops_metadata :
+    let ops : List Op := [.mkb "b", .setVer "b" .enabled,
+      .put "b" "k" [1] { ct := some "t", md := [("a", "1")], tags := [("t", "v")], cls := some "STANDARD_IA" } false .none,
+      .append "b" "k" [2] none]
+    (match (step Quirks.beforeAppendFix (run Quirks.beforeAppendFix {} ops).1 (.head "b" "k" none)).2 with
+     | .obj v => (v.md, v.tags, v.cls) | _ => ([], [], none)) = ([], [], none) ∧
+    (match (step Quirks.code (run Quirks.code {} ops).1 (.head "b" "k" none)).2 with
+     | .obj v => (v.md, v.tags, v.cls) | _ => ([], [], none)) = ([("a", "1")], [("t", "v")], some "STANDARD_IA") := by
+  decide
+
+/-- Non-vacuity of `copy_directives`: a copy with metadata directive COPY and a redirect on the request. -/
+example : (step Quirks.code (run Quirks.code {} [.mkb "b",
+      .put "b" "k" [1] { ct := some "t", md := [("!wr", "/old"), ("a", "1")] } false .none]).1
+    (.copy "b" "k" none "b" "k2" false false { md := [("!wr", "/new")] })).2 = .wrote none (singleETag [1]) := by decide
+
 end Pithos.C11
